@@ -287,11 +287,31 @@ Lemma connected_filter st c x conns' :
   memN c conns' = connected st c && negb (c =? x).
 Proof. intros ->. unfold connected. apply memN_filter_neq. Qed.
 
+(* a monitor is party to no pending reply: dropping them changes nothing and nobody is owed a NoReply *)
+Lemma monitor_no_pending st c :
+  Inv st -> is_monitor st c = true -> drop_pending (st_pend st) c = st_pend st /\ orphaned (st_pend st) c = [].
+Proof.
+  intros I Hm.
+  assert (H : forall p, In p (st_pend st) -> involves c p = false).
+  { intros p Hp. destruct (pend_ok _ I p Hp) as [H1 H2]. apply involves_false. split.
+    - intros E. rewrite E in H1. congruence.
+    - intros s E ->. rewrite (H2 c E) in Hm. discriminate. }
+  split.
+  - unfold drop_pending. induction (st_pend st) as [|p l IH]; simpl; auto.
+    rewrite (H p (or_introl eq_refl)). simpl. f_equal. apply IH. intros q Hq. apply H. right; auto.
+  - unfold orphaned. induction (st_pend st) as [|p l IH]; simpl; auto.
+    assert (Hp := H p (or_introl eq_refl)). apply involves_false in Hp. destruct Hp as [Hg Hs].
+    assert (E : (match p_send p with Some s => s =? c | None => false end) = false).
+    { destruct (p_send p) as [s|] eqn:Es; auto. apply N.eqb_neq. apply Hs; auto. }
+    rewrite E, andb_false_r. apply IH. intros q Hq. apply H. right; auto.
+Qed.
+
 Lemma Inv_disconnect st c : Inv st -> connected st c = true -> Inv (fst (disconnect st c)).
 Proof.
   intros I Hc. unfold disconnect. destruct (is_monitor st c) eqn:Em.
   - (* a monitor leaves *)
-    destruct I. simpl. split; simpl; unfold connected, is_monitor in *; simpl.
+    rewrite noreply_items_state. simpl. destruct (monitor_no_pending st c I Em) as [Ed _]. rewrite Ed.
+    destruct I. split; simpl; unfold connected, is_monitor in *; simpl.
     + intros n o H. destruct (own_ok0 n o H) as [H1 H2]. rewrite !memN_filter_neq, H1, H2. simpl. split; auto.
       destruct (o =? c) eqn:E; auto. apply N.eqb_eq in E. subst. congruence.
     + auto.
